@@ -6,9 +6,12 @@
    which the k-th reduce combines the P contributions (any tree, any order of the ranks: the operator is declared
    commutative).  `ord fi r e`: the key by which rank r orders the signed edges (as found: pointer rank
    `eord_r`; as fixed: the forest index).  `silent`: returned without emitting a cycle.
-   `signed_phase_premise`: the per-index search premise (see the head of MpiProofs3.v) — the only unproved
-   ingredient, the same kind of premise the sequential C02 statement carries; it does not mention ranks, slices or
-   reductions.
+   `signed_phase_premise`: the per-index search premise of the `_modulo_search` statements (see the head of
+   MpiProofs3.v); it does not mention ranks, slices or reductions.  The statements C04c_result_fixed and
+   C04c_result_orig_agreeing_orders at the END of this file carry NO search premise: they are proved from the verified
+   specification of one bidirectional search (BidirProofs4.bidir_spec) with the good/done invariant of
+   BidirProofsA1-A3 (MpiProofs6.v).  The `_modulo_search` versions are kept: their premise (an exact optimum per
+   index, for every running best) is stronger than what bidir_spec yields, see the head of MpiProofs6.v.
 
    What is NOT covered by theorems: the tree variants' per-chunk lookup itself (no exact model of the candidate
    lookup exists; their collective structure is covered by C04b_no_deadlock_trees, the partition/reduction argument
@@ -16,7 +19,7 @@
    the integer ceiling for total < 2^53). *)
 From Coq Require Import List Arith Bool ZArith Permutation.
 From Parmcb Require Import GraphSpec McbSpec SvaSpec SignedModel SignedZModel
-  MpiModel MpiSignedModel MpiProofs1 MpiProofs2 MpiProofs3 MpiProofs4 MpiProofs5.
+  MpiModel MpiSignedModel MpiProofs1 MpiProofs2 MpiProofs3 MpiProofs4 MpiProofs5 MpiProofs6.
 Import ListNotations.
 
 (* C04a: the ceil-stride slices [r*s, min((r+1)*s, total)), s = ceil(total/P), partition [0,total) for every P >= 1:
@@ -179,3 +182,45 @@ Example C04a_example :
   map (fun r => (slice_lo 10 3 r, slice_len 10 3 r)) (seq 0 3) = [(0, 4); (4, 4); (8, 2)]
   /\ map (fun r => slice_len 3 13 r) (seq 0 13) = [1; 1; 1; 0; 0; 0; 0; 0; 0; 0; 0; 0; 0].
 Proof. split; reflexivity. Qed.
+
+(* ---- C04c without any search premise ------------------------------------------------------------------------ *)
+
+(* C04c, the fixed code: for EVERY simple graph with positive integer weights, every root order of the spanning forest,
+   every P >= 1 and every family of reduction trees the P rank programs end without deadlock, rank 0 returns a
+   minimum cycle basis with its total weight and m - n + c cycles, and the other ranks emit nothing.  No layout
+   parameter, no premise about the search. *)
+Theorem C04c_result_fixed : forall g wts roots P rtree_of,
+  simple_graph g -> positive_weights g wts -> (forall v, v < nv g -> In v roots) ->
+  1 <= P -> (forall k, rtree_ok P (rtree_of k)) ->
+  exists fi cycles total sup rest,
+    create_index g roots = Some fi
+    /\ mcb_sva_signed_mpi_fixed_Z g wts roots P rtree_of = Some (Done (RankOut cycles total sup None :: rest))
+    /\ length rest = P - 1 /\ Forall (silent 0%Z fi) rest
+    /\ min_cycle_basis g wts cycles /\ total = total_weight wts cycles
+    /\ has_cycle_space_dimension g (length cycles).
+Proof. exact mpi_signed_fixed_min_free. Qed.
+Print Assumptions C04c_result_fixed.
+
+(* C04c, the code as found: the same, PROVIDED the ranks' pointer orders coincide (cf. C04_layout_refuted) *)
+Theorem C04c_result_orig_agreeing_orders : forall g wts roots P eords rtree_of,
+  simple_graph g -> positive_weights g wts -> (forall v, v < nv g -> In v roots) ->
+  1 <= P -> (forall k, rtree_ok P (rtree_of k)) ->
+  (forall r, r < P -> nth r eords [] = nth 0 eords []) ->
+  exists fi cycles total sup rest,
+    create_index g roots = Some fi
+    /\ mcb_sva_signed_mpi_orig_Z g wts roots P eords rtree_of = Some (Done (RankOut cycles total sup None :: rest))
+    /\ length rest = P - 1 /\ Forall (silent 0%Z fi) rest
+    /\ min_cycle_basis g wts cycles /\ total = total_weight wts cycles
+    /\ has_cycle_space_dimension g (length cycles).
+Proof. exact mpi_signed_orig_min_free. Qed.
+Print Assumptions C04c_result_orig_agreeing_orders.
+
+(* non-vacuity: the graph of the D8 refutation satisfies every hypothesis of C04c_result_fixed with P = 2 and Boost's tree
+   (and the model indeed computes weight 12 there, C04_fix_removes_the_witness) *)
+Example C04c_result_fixed_nonvacuous :
+  simple_graph d8_g /\ positive_weights d8_g d8_w /\ (forall v, v < nv d8_g -> In v d8_roots)
+  /\ 1 <= 2 /\ (forall k : nat, rtree_ok 2 (boost_reduce_tree 2)).
+Proof.
+  split; [exact d8_simple|]. split; [exact d8_pos|]. split; [exact d8_roots_cover|].
+  split; [auto|]. intros _. apply rtree_okb_ok. reflexivity.
+Qed.
